@@ -5,6 +5,8 @@ MSG = "hippolyzer/lib/base/message/message.py"
 PACK = "hippolyzer/lib/base/message/data_packer.py"
 DT = "hippolyzer/lib/base/datatypes.py"
 SERLIB = "hippolyzer/lib/base/serialization.py"
+BCIRC = "hippolyzer/lib/base/message/circuit.py"
+LLSDSER = "hippolyzer/lib/base/message/llsd_msg_serializer.py"
 
 _TRY_EXCEPT = (
     "        try:\n"
@@ -299,6 +301,24 @@ VARIANTS = [
     {"name": "P R10 remainder read into a local before it is stored", "file": DES, "expect": "silent",
      "old": "            msg.raw_trailer = reader.read_bytes(len(reader), to_bytes=True)\n",
      "new": "            left = len(reader)\n            msg.raw_trailer = reader.read_bytes(left, to_bytes=True)\n"},
+    # ------------------------------------------------------------------ R12 / R8 (other renderers)
+    {"name": "R12 send path traces a summary of every message", "file": BCIRC, "expect": "C02.R12",
+     "old": "    def _send_prepared_message(self, message: Message, transport=None):\n        try:\n",
+     "new": "    def _send_prepared_message(self, message: Message, transport=None):\n"
+            "        logging.debug(\"sending %s: %s\", message.name, message.to_summary())\n        try:\n"},
+    {"name": "P R12 send path traces header fields only", "file": BCIRC, "expect": "silent",
+     "old": "    def _send_prepared_message(self, message: Message, transport=None):\n        try:\n",
+     "new": "    def _send_prepared_message(self, message: Message, transport=None):\n"
+            "        logging.debug(\"sending %s #%s\", message.name, message.packet_id)\n        try:\n"},
+    {"name": "R8 LLSD serializer reads the blocks' own dicts", "file": LLSDSER, "expect": "C02.R8",
+     "old": "        msg_dict = msg.to_dict()\n",
+     "new": "        msg_dict = {'message': msg.name, 'body': {k: [b.vars for b in v] for k, v in msg.blocks.items()}}\n"},
+    {"name": "P R8 LLSD serializer copies the blocks' dicts itself", "file": LLSDSER, "expect": "silent",
+     "old": "        msg_dict = msg.to_dict()\n",
+     "new": "        msg_dict = {'message': msg.name, 'body': {k: [dict(b.vars) for b in v] for k, v in msg.blocks.items()}}\n"},
+    {"name": "P R1/R3 packet layout constants read through a local alias of the class", "expect": "silent", "edits": [
+        {"file": DES, "old": "        msg_size = len(data)\n", "new": "        msg_size = len(data)\n        lay = PacketLayout\n"},
+        {"file": DES, "old": "msg.raw_body = bytes(data[PacketLayout.PHL_NAME:])", "new": "msg.raw_body = bytes(data[lay.PHL_NAME:])"}]},
     # ------------------------------------------------------------------ R8 / R9
     {"name": "R8 to_dict hands out the blocks' own variable dicts", "file": MSG, "expect": "C02.R8",
      "old": "                new_vars = {}\n                for var_name, val in block.items():\n                    new_vars[var_name] = val\n"
